@@ -482,7 +482,8 @@ impl<'a> Resolver<'a> {
                     time_received: t,
                     exchange: self.exchange_id_of(inst),
                     instrument: inst,
-                    kind: DataKind::Trade(PublicTrade { id: format!("pt-{}", self.now_ms), price: (*price_q).max(1) as f64 / 4.0, amount: 1.0, side: Side::Buy }),
+                    // price_q == 0: a public trade at price zero (legal for spreads / some futures)
+                    kind: DataKind::Trade(PublicTrade { id: format!("pt-{}", self.now_ms), price: *price_q as f64 / 4.0, amount: 1.0, side: Side::Buy }),
                 }))
             }
             EvSpec::MarketL1 { inst, bid_q, ask_q, dt } => {
